@@ -7,9 +7,11 @@
 (*   W  - its lock executes the program found in its witness; it exists in two witness       *)
 (*        variants with the SAME transaction hash: "wa" (passes) and "wb" (script fails)     *)
 (*   S  - `since` = absolute block number SinceAt: valid only in a block of height >= SinceAt*)
+(*   M  - spends a cellbase output with since = 0; the cellbase matures at height SinceAt     *)
+(*        (the other context-dependent check the property names: maturity)                    *)
 (* A history is a fixed sequence of slots: two pool submissions, blocks X5 X6, a pool        *)
 (* submission, blocks Y5 Y6 Y7 (Y is longer: a reorg if all of it is valid).  Each block     *)
-(* slot chooses the block's content (nothing / wa / wb / s).                                 *)
+(* slot chooses the block's content (nothing / wa / wb / s / m).                             *)
 (*                                                                                           *)
 (* The module contains BOTH the cache-free semantics (operators Exp..) and the node with     *)
 (* caches as coded (variables vcache, scache):                                               *)
@@ -25,6 +27,7 @@ EXTENDS Naturals, Sequences, FiniteSets, TLC
 CONSTANTS SinceAt,              \* S is mature in blocks of height >= SinceAt
           KeyByTxHash,          \* BUG: verification cache keyed by tx hash (both W variants share a key)
           SkipTimeOnHit,        \* BUG: a cache hit skips the time-relative checks
+          SkipMaturityOnHit,    \* BUG: a cache hit of a transaction without `since` skips the maturity check
           InvalidateOnDelete,   \* FALSE = store caches survive delete_block (as coded before the repair)
           Warm                  \* TRUE: every variant was verified once before the history (node C)
 
@@ -41,10 +44,10 @@ VARIABLES slot,      \* next slot 1..8 (9 = done)
           ok         \* the cached node agreed with the cache-free semantics so far
 vars == <<slot, pool, recv, nver, main, dead, rejected, vcache, scache, hist, ok>>
 
-Variants == {"wa", "wb", "s"}
-TxOf(v) == IF v = "s" THEN "S" ELSE "W"
+Variants == {"wa", "wb", "s", "m"}
+TxOf(v) == IF v = "s" THEN "S" ELSE IF v = "m" THEN "M" ELSE "W"
 ScriptOK(v) == v # "wb"
-TimeOK(v, h) == v # "s" \/ h >= SinceAt
+TimeOK(v, h) == v \notin {"s", "m"} \/ h >= SinceAt
 Key(v) == IF KeyByTxHash THEN TxOf(v) ELSE v
 
 TxsOf(seq, n) == {TxOf(seq[i]) : i \in {j \in 1..n : seq[j] # "none"}}
@@ -60,12 +63,17 @@ Entry(vc, v) == CHOOSE e \in vc : e[1] = Key(v)
 \* <<verdict, variant whose cycles / fee get recorded>>
 CachedTx(vc, done, v, h) ==
     IF TxOf(v) \in done THEN <<"dead", "-">>
-    ELSE IF Hit(vc, v) THEN (IF ~SkipTimeOnHit /\ ~TimeOK(v, h) THEN <<"immature", "-">> ELSE <<"ok", Entry(vc, v)[2]>>)
+    ELSE IF Hit(vc, v) THEN (IF ~SkipTimeOnHit /\ ~(SkipMaturityOnHit /\ v = "m") /\ ~TimeOK(v, h)
+                             THEN <<"immature", "-">> ELSE <<"ok", Entry(vc, v)[2]>>)
     ELSE IF ~TimeOK(v, h) THEN <<"immature", "-">>
     ELSE IF ~ScriptOK(v) THEN <<"script", "-">> ELSE <<"ok", v>>
 Fill(vc, v, r) == IF r[1] = "ok" /\ ~Hit(vc, v) THEN vc \cup {<<Key(v), v>>} ELSE vc
+\* the pool judges `since` against the next block but cellbase maturity against the epoch of the tip itself
+\* (TxVerifyEnv::epoch() of a submitted / proposed transaction is the tip's epoch): a documented, cache-independent
+\* conservatism of the code
+PoolH(v) == IF v = "m" THEN TipH ELSE TipH + 1
 ExpPool(v) == IF TxOf(v) \in pool \/ TxOf(v) \in Committed(main) THEN "reject"
-              ELSE IF ExpTx({}, v, TipH + 1) = "ok" THEN "ok" ELSE "reject"
+              ELSE IF ExpTx({}, v, PoolH(v)) = "ok" THEN "ok" ELSE "reject"
 
 \* ---- verification of the stored blocks i..Len(seq) of a branch, in order (a reorg or a new tip) ----
 \* result: [e |-> cache-free verdict ("ok" or the class of the first failure), n |-> blocks verified ok,
@@ -93,7 +101,7 @@ PoolSlot(vs) ==
         /\ IF v = "skip" THEN UNCHANGED <<pool, vcache, hist, ok>>
            ELSE LET e == ExpPool(v)
                     r == IF TxOf(v) \in pool \/ TxOf(v) \in Committed(main) THEN <<"reject", "-">>
-                         ELSE CachedTx(vcache, {}, v, TipH + 1)
+                         ELSE CachedTx(vcache, {}, v, PoolH(v))
                     rv == IF r[1] = "ok" THEN "ok" ELSE "reject"
                 IN /\ pool' = IF e = "ok" THEN pool \cup {TxOf(v)} ELSE pool
                    /\ vcache' = IF r[1] \in {"ok", "immature", "script"} THEN Fill(vcache, v, r) ELSE vcache
@@ -105,7 +113,7 @@ PoolSlot(vs) ==
 \* unverified blocks of the branch are verified in order (first-seen wins a tie); a failure deletes the new block
 BlockSlot(g, h) ==
     IF g \in dead \/ Len(recv[g]) # h - 5 THEN slot' = slot + 1 /\ UNCHANGED <<pool, recv, nver, main, dead, rejected, vcache, scache, hist, ok>>
-    ELSE \E c \in {"none", "wa", "wb", "s"} :
+    ELSE \E c \in {"none", "wa", "wb", "s", "m"} :
         LET seq == Append(recv[g], c)
             better == 4 + Len(seq) > TipH
             res == IF better THEN VerifyFrom(seq, nver[g] + 1, vcache, TRUE)
@@ -126,11 +134,11 @@ BlockSlot(g, h) ==
            /\ hist' = Append(hist, [k |-> "block", v |-> c, g |-> g, h |-> h, verdict |-> res.e, cyc |-> IF better /\ kept THEN "verified" ELSE "-"])
            /\ ok' = (ok /\ res.agree)
 
-Next == \/ slot = 1 /\ PoolSlot({"wa", "wb", "s"})
+Next == \/ slot = 1 /\ PoolSlot({"wa", "wb", "s", "m"})
         \/ slot = 2 /\ PoolSlot({"wa", "wb"})
         \/ slot = 3 /\ BlockSlot("X", 5)
         \/ slot = 4 /\ BlockSlot("X", 6)
-        \/ slot = 5 /\ PoolSlot({"wa", "wb", "s"})
+        \/ slot = 5 /\ PoolSlot({"wa", "wb", "s", "m"})
         \/ slot = 6 /\ BlockSlot("Y", 5)
         \/ slot = 7 /\ BlockSlot("Y", 6)
         \/ slot = 8 /\ BlockSlot("Y", 7)
